@@ -451,6 +451,12 @@ def rule_eval_state_reset(db: ProgramDB) -> List[Instance]:
     return out
 
 
+PER_ROW_PROTOCOL_FIELDS = {
+    "_is_false_": "the truth of the row a node handed on last; every evaluation method assigns it for itself before each row it hands on "
+                  "(decided by CMP-TRUTH / LOGIC-TRUTH / QUANT-TRUTH), so it is per-row state of the evaluation protocol, not residue",
+}
+
+
 def _foreign_flag_writes(db: ProgramDB, ev_fns: Set[str]) -> List[Instance]:
     """Evaluation code that sets a scalar field of ANOTHER node (`other._flag_ = <constant>`), a field evaluation code also
     reads: the write outlives the evaluation unless a reset undoes it - either the reset of the class that owns the field
@@ -499,6 +505,10 @@ def _foreign_flag_writes(db: ProgramDB, ev_fns: Set[str]) -> List[Instance]:
                     read = any(isinstance(x, ast.Attribute) and x.attr == t.attr and isinstance(x.ctx, ast.Load)
                                for q2 in ev_fns for x in own_nodes(db.functions[q2].node))
                     if not read:
+                        continue
+                    if t.attr in PER_ROW_PROTOCOL_FIELDS:
+                        out.append(inst("EVAL-STATE-RESET", INFO, f, f"{f.short}[{unparse(t)} = {unparse(n.value)}]",
+                                        f"frozen exception: {PER_ROW_PROTOCOL_FIELDS[t.attr]}", line=n.lineno))
                         continue
                     undone = t.attr in reset_self or any(t.attr in reset_foreign.get(k.name, set()) for k in f.cls.mro)
                     if undone and t.attr not in reset_self:
